@@ -21,12 +21,12 @@ import (
 
 // FaultCase is one case of C11 (and, with Op.Kind == "create", of C12).
 type FaultCase struct {
-	Setup   Setup  `json:"setup"`
-	Prep    []Op   `json:"prep"`
-	Op      Op     `json:"op"`
-	Pick    uint32 `json:"pick"`          // fault position = Pick mod number of recorded steps
-	All     bool   `json:"all,omitempty"` // every recorded step in turn
-	NoFault bool   `json:"no_fault,omitempty"`
+	Setup Setup        `json:"setup"`
+	Prep  []Op         `json:"prep"`
+	Op    Op           `json:"op"`
+	Pick  uint32       `json:"pick"`            // fault position = Pick mod number of recorded steps
+	All   bool         `json:"all,omitempty"`   // every recorded step in turn
+	Fixed *world.Fault `json:"fixed,omitempty"` // explicit fault (replays, known findings) instead of Pick
 }
 
 var c11Kinds = []string{"create", "create", "remove", "dissociate", "realloc", "realloc", "replace", "replace", "addnode", "removenode", "setnode"}
@@ -131,7 +131,7 @@ func explain(before, after snapshot, out Outcome, op Op) []string {
 	anySuccess := len(okIDs) > 0 || (out.Err == "" && (op.Kind == "addnode" || op.Kind == "removenode" || op.Kind == "setnode"))
 	b, a := metaOnly(before.kv), metaOnly(after.kv)
 	var bad []string
-	for _, d := range world.DiffKV(b, a) {
+	for _, d := range world.DiffKVAll(b, a) {
 		explained := false
 		for id := range okIDs {
 			if id != "" && strings.Contains(d, id) {
@@ -191,6 +191,9 @@ func explain(before, after snapshot, out Outcome, op Op) []string {
 		}
 	}
 	sort.Strings(bad)
+	if len(bad) > 8 {
+		bad = append(bad[:8], fmt.Sprintf("... %d more", len(bad)-8))
+	}
 	return bad
 }
 
@@ -271,12 +274,23 @@ func runC11(x *vt.Ctx, c FaultCase) *vt.Finding {
 			positions = append(positions, i)
 		}
 	}
+	if c.Fixed != nil {
+		positions = []int{-1}
+	}
 	for _, pos := range positions {
 		w.IC.Disable(true)
 		restoreSnapshot(w, s0)
 		w.IC.Disable(false)
 		op := c.Op
-		op.Fault = &world.Fault{Name: steps[pos].Name, Occ: steps[pos].Occ}
+		if pos < 0 {
+			op.Fault = c.Fixed
+		} else {
+			op.Fault = &world.Fault{Name: steps[pos].Name, Occ: steps[pos].Occ}
+		}
+		if known := c11KnownRegion(op); known != "" && c.Fixed == nil && vt.Exclude("C11", known) {
+			x.Label("excluded-known-finding")
+			continue
+		}
 		out := runOp(w, op)
 		fired := w.IC.FaultFired()
 		x.Logf("fault at %s#%d fired=%v -> %s", op.Fault.Name, op.Fault.Occ, fired, jsonStr(out))
@@ -304,11 +318,11 @@ func runC11(x *vt.Ctx, c FaultCase) *vt.Finding {
 		usage := usageViolations(w)
 		w.IC.Disable(false)
 		if len(bad) > 0 {
-			return vt.Failf(fmt.Sprintf("op=%s fault=%s:lasting-effect", op.Kind, stepClass(op.Fault.Name)),
+			return vt.Failf(c11Key(op, "lasting-effect"),
 				"%s with a failure of %s#%d reported %s but left: %s", op.Kind, op.Fault.Name, op.Fault.Occ, jsonStr(out), strings.Join(bad, "; "))
 		}
 		if len(usage) > 0 {
-			return vt.Failf(fmt.Sprintf("op=%s fault=%s:usage!=sum", op.Kind, stepClass(op.Fault.Name)),
+			return vt.Failf(c11Key(op, "usage!=sum"),
 				"%s with a failure of %s#%d: %s", op.Kind, op.Fault.Name, op.Fault.Occ, strings.Join(usage, "; "))
 		}
 	}
@@ -332,4 +346,23 @@ func histStr(h []world.Step) string {
 		b.WriteString(" ")
 	}
 	return b.String()
+}
+
+// c11Key names the class of a C11 failure: operation kind, class of the failing step, symptom.
+// For remove-node every failing resource-manager (plugin) step has one root cause (the node
+// metadata is removed before the resource records and nothing compensates), so they share a key.
+func c11Key(op Op, symptom string) string {
+	cls := stepClass(op.Fault.Name)
+	if op.Kind == "removenode" && strings.HasPrefix(cls, "plugin.") {
+		cls = "plugin.*"
+	}
+	return fmt.Sprintf("op=%s fault=%s:%s", op.Kind, cls, symptom)
+}
+
+// c11KnownRegion returns the known-finding key whose region the (op, fault) pair falls into, if any.
+func c11KnownRegion(op Op) string {
+	if op.Kind == "removenode" && strings.HasPrefix(stepClass(op.Fault.Name), "plugin.") {
+		return c11Key(op, "lasting-effect")
+	}
+	return ""
 }
